@@ -106,6 +106,32 @@ def assemble_seq(seq):
     return b"f __module__\0" + body + b"e\0"
 
 
+# argument vectors of DIFFERENT LENGTHS in sequence: what one call received must not reach the next (the empty vector after a full one, a short one after a long one)
+VSEQ_VECS = [(), (("int", 0),), (("str", 0), ("int", 1)), (("bool", 0), ("float", 0), ("byte", 0))]
+
+
+def assemble_vseq(vecs, first_fn):
+    body = b""
+    for k, vec in enumerate(vecs):
+        body += ins("void")
+        for kind, i in vec:
+            body += ins(VALS[kind][i][0], VALS[kind][i][1])
+        fn_ = first_fn if k == 0 else "echo"
+        body += ins("call_lib", build.PROBE_LIB if k % 2 == 0 else build.PROBE2_LIB, fn_) + ins("printn", "*")
+    body += ins("void") + ins("make_str", "SENTINEL") + ins("printn", "*") + ins("void") + ins("ret_mod")
+    return b"f __module__\0" + body + b"e\0"
+
+
+def expected_vseq(vecs, first_fn):
+    out = []
+    for k, vec in enumerate(vecs):
+        tag = "B" if k % 2 else ""
+        if k == 0 and first_fn == "nothing":
+            continue
+        out.append(f"Str:{tag}[" + ";".join(VALS[kind][i][2] for kind, i in vec) + "]")
+    return out + ["Str:SENTINEL"]
+
+
 def carries(err, msg):
     """The report must carry the message of the failure: the foreign function's own text, or - for a missing library / symbol, whose
     wording belongs to the interpreter and is free - the established text or at least the name of what is missing."""
@@ -225,7 +251,7 @@ class C19(Check):
             "symbols, missing library} [and 19 error messages (empty, blank, several lines, quotes, backslash, non-ASCII, 300 characters, look-alikes of the report's own lines) raised through probe function fail_with in 4 positions (entry function, tail of it, helper function, tail of helper)]  x {echo, last, nothing, fail, missing symbol}; every call position {last instruction of the entry function, tail of a "
             "helper function, helper storing the result first, helper called twice, callback of list.map, callback of list.filter, result popped, "
             "result stored} x {echo, last, fail, missing library, missing symbol}; each assembled as a binary .mmm and executed with `mscript execute`. "
-            "Symbol names: 17 exported functions whose names (1 .. 300 bytes) are prefixes of one another, each returning its own name, and 14 names in between that are not exported, in both libraries.  "
+            "Argument vectors of different lengths (0 .. 3) in sequences of 2 and 3 calls, alternating between the two libraries, the first call returning a value or none.  Symbol names: 17 exported functions whose names (1 .. 300 bytes) are prefixes of one another, each returning its own name, and 14 names in between that are not exported, in both libraries.  "
             "Non-trivial = vector length >= 1; distinct = distinct (vector, function).")
     assumptions = ["probe dylib built against /repo/bytecode in the same cargo target dir",
                    "of the values owning GC memory only lists of ints are in the alphabet (objects, functions, maps are not)",
@@ -258,7 +284,8 @@ class C19(Check):
         libl = [("lib", "named", i) for i in range(len(LIB_NAMES))] + [("lib", "ghost", i) for i in range(len(LIB_GHOSTS))]
         errl = [("err", p_, i) for p_ in ERR_POSITIONS for i in range(len(ERR_MESSAGES))]
         syml = [("sym", n, lib) for n in sorted(self.SYM_EXPORTED + self.SYM_MISSING) for lib in ("A", "B")]
-        ls = [("L0g-symbol-names-of-1..400-bytes-that-are-prefixes-of-one-another", syml), ("L0f-error-messages-x-positions", errl), ("L0-len<=2", list(gen(2))), ("L0b-call-sequences-of-2", seq2), ("L0c-call-positions", posl), ("L0d-library-file-names", libl), ("L0e-list-arguments-len<=3", gcl),
+        vsl = [("vseq", c, f) for n in (2, 3) for c in itertools.product(range(len(VSEQ_VECS)), repeat=n) for f in ("echo", "nothing")]
+        ls = [("L0h-argument-vectors-of-different-lengths-in-sequence", vsl), ("L0g-symbol-names-of-1..400-bytes-that-are-prefixes-of-one-another", syml), ("L0f-error-messages-x-positions", errl), ("L0-len<=2", list(gen(2))), ("L0b-call-sequences-of-2", seq2), ("L0c-call-positions", posl), ("L0d-library-file-names", libl), ("L0e-list-arguments-len<=3", gcl),
               ("L1-len<=4", gen(4, 3))]
         if L > 4:
             ls.append(("L1b-call-sequences-of-3", [("seq", c) for c in itertools.product(range(len(SEQ_CALLS)), repeat=3)]))
@@ -268,6 +295,8 @@ class C19(Check):
         return ls
 
     def describe(self, case):
+        if case[0] == "vseq":
+            return {"argument vector lengths in sequence": [len(VSEQ_VECS[i]) for i in case[1]], "first call": case[2]}
         if case[0] == "sym":
             return {"symbol-name-bytes": case[1], "exported": case[1] in self.SYM_EXPORTED, "library": case[2]}
         if case[0] == "seq":
@@ -280,6 +309,22 @@ class C19(Check):
             return {"library": LIB_NAMES[case[2]] if case[1] == "named" else list(LIB_GHOSTS[case[2]]), "kind": case[1]}
         vec, f = case
         return {"args": [f"{k}:{LISTS[i][0] if k == 'list' else VALS[k][i][1]}" for k, i in vec], "function": f}
+
+    def run_vseq(self, case):
+        _, idx, first_fn = case
+        vecs = [VSEQ_VECS[i] for i in idx]
+        prog = assemble_vseq(vecs, first_fn)
+        d = driver.fresh_dir()
+        driver.write_files(d, {"a.mmm": prog})
+        res = driver.run(["execute", "a.mmm"], d, env={"MSCRIPT_VERIF_TYPED_PRINT": "1"})
+        exp = expected_vseq(vecs, first_fn)
+        got = [l for l in res.lines() if l != ""]
+        viol = []
+        if res.exit != 0 or got != exp:
+            viol.append({"sig": {"kind": "argument-vectors-in-sequence", "func": "echo", "lengths": ",".join(str(len(v)) for v in vecs), "first": first_fn},
+                         "what": f"calls with argument vectors of lengths {[len(v) for v in vecs]} (first call: {first_fn}): expected {exp}, got exit {res.exit} and {got} {res.err[-200:]}",
+                         "detail": {"case": self.describe(case), "files": {"a.mmm": prog}, "res": res.brief(), "expected": exp}})
+        return {"outcome": "vseq-ok" + ("-DIFF" if viol else ""), "viol": viol, "nontrivial": True, "tags": ["vseq"]}
 
     def run_seq(self, case):
         seq = [SEQ_CALLS[i] for i in case[1]]
@@ -433,6 +478,8 @@ class C19(Check):
     def run_case(self, case):
         if case[0] == "sym":
             return self.run_sym(case)
+        if case[0] == "vseq":
+            return self.run_vseq(case)
         if case[0] == "lib":
             return self.run_lib(case)
         if case[0] == "seq":
